@@ -15,7 +15,11 @@ def _program_lines(case):
 
 
 def _label_names(case):
-    return set(l.strip()[:-1] for l in _program_lines(case) if l.strip().endswith(':') and ' ' not in l.strip())
+    """names that denote label addresses where a value is needed: a name that is also defined as a constant
+    denotes the constant (constants are looked up first), so it is not a label reference"""
+    lines = _program_lines(case)
+    consts = set(l.split('=')[0].strip() for l in lines if '=' in l and re.fullmatch(r'\s*[A-Za-z_][A-Za-z0-9_]*\s*=.*', l))
+    return set(l.strip()[:-1] for l in lines if l.strip().endswith(':') and ' ' not in l.strip()) - consts
 
 
 def _mentions_label_outside_offset(line, labels):
